@@ -19,8 +19,8 @@
    From these (transcribing the property text, RFC 4364 4.3.1/4.3.5, RFC 4684 3/6):
      VrfVisible(n)        RFC 4364 4.3.5: a VPN route is eligible for installation in a VRF iff it
                           carries one of the VRF's import targets
-     CeExport             what the CE attached to v1 must have been told: the plain form of
-                          VrfVisible("v1") except its own routes
+     CeExport, CeOk       what the CE attached to v1 must have been told: the plain forms of
+                          VrfVisible("v1") except its own routes, one per IP prefix
      VrfOriginatedExport  RFC 4364 4.3.1: a route learned from a CE / injected into a VRF is
                           exported as a VPN route with the VRF's RD, label and export targets
      RtcExport(p)         RFC 4684 6: VPN routes advertised to an RTC neighbour iff it has a
@@ -92,6 +92,14 @@ VrfVisible(n) == {[rd |-> r.rd, x |-> r.x, v |-> r.v, src |-> r.src] :
 
 (* told to the CE as plain routes; never back to the neighbour the route came from *)
 CeExport == {[x |-> r.x, v |-> r.v] : r \in {q \in VpnRoutes : q.src # "CE" /\ Imports(V(CeVrf), q)}}
+
+(* Two VPN routes with different RDs may have the same IP prefix (a site reached through two PEs):
+   both are visible in the VRF, but the CE can be told one plain route per prefix.  WHICH one is not
+   determined by the property text, so the oracle is a predicate: only plain forms of imported
+   routes, one per prefix (C17_CeExport), and every prefix that has an imported route (C17_CeComplete) *)
+CeSound(W)    == W \subseteq CeExport /\ \A e, f \in W : e.x = f.x => e = f
+CeComplete(W) == {c.x : c \in CeExport} \subseteq {e.x : e \in W}
+CeOk(W)       == CeSound(W) /\ CeComplete(W)
 
 VrfOriginatedExport == {r \in VpnRoutes : r.src \in {"CE", "local"}}
 
